@@ -160,6 +160,7 @@ def invariant_loop(eng, stmt, label, spec, view, s, iter_val=None, guard=None):
         may = (lambda r: z3.Or([r == x for x in mod_refs])) if mod_refs else (lambda r: z3.BoolVal(False))
         hs.assume(*new.frame_facts(hs.heap, kinds, flds, may))
         hs.heap = new
+        hs.assume(*new.closed_facts())
     if "stdout" in hs.ghost and writes:
         n0, a0 = hs.ghost["stdout"]
         hs.ghost["stdout"] = (fresh("out_n", smt.I), fresh("out_arr", smt.ArrIV))
